@@ -21,9 +21,11 @@
 package engine
 
 import (
+	"fmt"
 	"go/ast"
 	"go/token"
 	"reflect"
+	"strings"
 
 	"github.com/uber-go/gopatch/internal/data"
 )
@@ -38,6 +40,9 @@ type SliceDotsMatcher struct {
 
 	// Positions at which dots were found.
 	Dots []token.Pos // inv: len(dots) = len(sections) - 1
+
+	// Names of the metavariables that occur in Sections[i:], for each i.
+	metavars [][]string // inv: len(metavars) = len(sections)
 }
 
 func (c *matcherCompiler) compileSliceDots(items reflect.Value, isDots func(ast.Node) bool) Matcher {
@@ -48,6 +53,9 @@ func (c *matcherCompiler) compileSliceDots(items reflect.Value, isDots func(ast.
 		sections [][]Matcher
 		current  []Matcher
 		dots     []token.Pos
+
+		// Where the metavariables of each section begin in c.metavars.
+		starts = []int{len(c.metavars)}
 	)
 	for i := 0; i < items.Len(); i++ {
 		item := items.Index(i)
@@ -56,6 +64,7 @@ func (c *matcherCompiler) compileSliceDots(items reflect.Value, isDots func(ast.
 			c.dots = append(c.dots, dotPos)
 			dots = append(dots, dotPos)
 			sections = append(sections, current)
+			starts = append(starts, len(c.metavars))
 			current = nil
 		} else {
 			current = append(current, c.compile(item))
@@ -69,7 +78,12 @@ func (c *matcherCompiler) compileSliceDots(items reflect.Value, isDots func(ast.
 		return SliceMatcher{Items: sections[0]}
 	}
 
-	return SliceDotsMatcher{Sections: sections, Dots: dots}
+	metavars := make([][]string, len(sections))
+	for i, start := range starts {
+		metavars[i] = append([]string(nil), c.metavars[start:]...)
+	}
+
+	return SliceDotsMatcher{Sections: sections, Dots: dots, metavars: metavars}
 }
 
 // Match matches
@@ -85,23 +99,58 @@ func (m SliceDotsMatcher) Match(got reflect.Value, d data.Data, r Region) (data.
 		return d, false
 	}
 
-	return m.matchSections(1, gotItems, d, r, idx)
+	s := sliceDotsSearch{SliceDotsMatcher: m}
+	return s.matchSections(1, gotItems, d, r, idx)
+}
+
+// sliceDotsSearch is one attempt to match a list against a SliceDotsMatcher.
+type sliceDotsSearch struct {
+	SliceDotsMatcher
+
+	// Places from which the remaining sections were found not to match.
+	// Without it a list in which the last section occurs nowhere is
+	// searched once for every way of placing the sections before it.
+	failed map[sliceDotsPlace]struct{}
+}
+
+// sliceDotsPlace is Sections[si:] against got[idx:], with the values that
+// the metavariables of those sections already stand for. Whether they match
+// depends on nothing else.
+type sliceDotsPlace struct {
+	si, idx  int
+	captured string
+}
+
+func (s *sliceDotsSearch) place(si, idx int, d data.Data) sliceDotsPlace {
+	var captured strings.Builder
+	for _, name := range s.metavars[si] {
+		var md metavarData
+		if data.Lookup(d, metavarKey(name), &md) {
+			fmt.Fprintf(&captured, "%s=%p;", name, md.capture)
+		}
+	}
+	return sliceDotsPlace{si: si, idx: idx, captured: captured.String()}
 }
 
 // matchSections matches m.Sections[si:] against got[idx:]. Each section is
 // tried at successive positions, shortest skipped run first; if the
 // sections after it cannot be matched from there, the next position is
 // tried.
-func (m SliceDotsMatcher) matchSections(si int, got []reflect.Value, d data.Data, r Region, idx int) (data.Data, bool) {
-	if si == len(m.Sections) {
+func (s *sliceDotsSearch) matchSections(si int, got []reflect.Value, d data.Data, r Region, idx int) (data.Data, bool) {
+	if si == len(s.Sections) {
 		return d, idx == len(got)
 	}
 
-	dots, want := m.Dots[si-1], m.Sections[si]
-	if len(want) == 0 && si == len(m.Sections)-1 {
+	dots, want := s.Dots[si-1], s.Sections[si]
+	if len(want) == 0 && si == len(s.Sections)-1 {
 		// "..." at the end of the list. Skip everything left in got.
 		sr := sectionRegion(got, r, idx, len(got))
 		return pushSliceDotsSkipped(d, dots, got[idx:], sr), true
+	}
+
+	place := s.place(si, idx, d)
+	if _, failed := s.failed[place]; failed {
+		return d, false
 	}
 
 	for i := idx; i+len(want) <= len(got); i++ {
@@ -110,11 +159,15 @@ func (m SliceDotsMatcher) matchSections(si int, got []reflect.Value, d data.Data
 		if !ok {
 			continue
 		}
-		if newD, ok = m.matchSections(si+1, got, newD, r, newIdx); ok {
+		if newD, ok = s.matchSections(si+1, got, newD, r, newIdx); ok {
 			return newD, true
 		}
 	}
 
+	if s.failed == nil {
+		s.failed = make(map[sliceDotsPlace]struct{})
+	}
+	s.failed[place] = struct{}{}
 	return d, false
 }
 
